@@ -29,6 +29,7 @@ func init() {
 }
 
 func checkC16(c *Check) {
+	lockBalanceRule(c, "C16", pClient)
 	p := c.P
 	la := p.Locks()
 	rcT := p.Named(pClient, "reconnectableClientImpl")
